@@ -790,6 +790,30 @@ func catalogText(c *lungo.Catalog, canonTime bool) string {
 					}
 					return v
 				}
+				// Transaction.Drop of a database emits its "drop" events in Go map
+				// order: runs of consecutive drop events are sorted by namespace
+				get := func(d bson.D, k string) interface{} {
+					for _, e := range d {
+						if e.Key == k {
+							return e.Value
+						}
+					}
+					return nil
+				}
+				docs := img[i].docs
+				for a := 0; a < len(docs); {
+					b := a
+					for b < len(docs) && get(docs[b], "operationType") == "drop" {
+						b++
+					}
+					if b > a {
+						run := docs[a:b]
+						sort.SliceStable(run, func(x, y int) bool { return enc(get(run[x], "ns")) < enc(get(run[y], "ns")) })
+						a = b
+					} else {
+						a++
+					}
+				}
 				for j, d := range img[i].docs {
 					img[i].docs[j] = canon(d).(bson.D)
 				}
